@@ -517,6 +517,10 @@ def make_module(I):
         items = I_.iter_concrete(src)
         dt = k.get("dtype")
         ct = dt.name if isinstance(dt, DType) else None
+        if dt is not None and dt is I_.builtins.get("int"):
+            ct = "int64"
+        elif dt is None and not items:
+            ct = "float64"          # np.array([]) without a dtype is an array of floats
         if items and all(isinstance(x, (tuple, PList)) for x in items):
             rows = [list(x.items) if isinstance(x, PList) else list(x) for x in items]
             w = len(rows[0])
